@@ -42,6 +42,15 @@ def impl_case(case):
         for pn in p2i:
             out["Z"][sch][pn] = [float(v) for v in np.asarray(py_get_sensitivity_to_parameter(M, list(x), pn, method=sch)).flatten()]
             if dict(M.get_parameter_dictionary()) != before: out["restored"] = False
+    # second phase on the SAME model object: parameters changed in place, then queried again (nothing computed for the old
+    # values may be reused, and the new values must survive the query) -- seeded change S2_C18
+    newp = {pn: round(float(v) * 1.7 + 0.1, 4) for pn, v in before.items() if pn in case["spec"]["parameters"]}
+    if newp:
+        M.set_params(dict(newp)); sch = SCHEMES[0]
+        out["newp"] = newp; out["simif2"] = G.simif_tokens(M)
+        out["J2"] = [float(v) for v in np.asarray(py_get_jacobian(M, list(x), method=sch)).flatten()]
+        out["Z2"] = {pn: [float(v) for v in np.asarray(py_get_sensitivity_to_parameter(M, list(x), pn, method=sch)).flatten()] for pn in p2i}
+        after = dict(M.get_parameter_dictionary()); out["kept2"] = all(after[k] == v for k, v in newp.items())
     return out
 
 def driver_line(case, r):
@@ -52,6 +61,10 @@ def driver_line(case, r):
         lines.append(" ".join(["sens", sch, fhex(0.01), fhex(case["t"])] + xs + ["J", "0"] + r["simif"]))
         for pn, k in r["p2i"].items():
             lines.append(" ".join(["sens", sch, fhex(0.01), fhex(case["t"])] + xs + ["Z", str(k)] + r["simif"]))
+    if "simif2" in r:
+        lines.append(" ".join(["sens", SCHEMES[0], fhex(0.01), fhex(case["t"])] + xs + ["J", "0"] + r["simif2"]))
+        for pn, k in r["p2i"].items():
+            lines.append(" ".join(["sens", SCHEMES[0], fhex(0.01), fhex(case["t"])] + xs + ["Z", str(k)] + r["simif2"]))
     return lines
 
 def _cmp(model_hex, impl_vals, what):
@@ -73,6 +86,13 @@ def compare(case, r, out):
             e = _cmp(z.split(), r["Z"][sch][pn], "sensitivity to %s %s" % (pn, sch))
             if e: return e
             if p.split() != r["simif"][1:1 + int(r["simif"][0])]: return "model's parameter vector not restored"
+    if "simif2" in r:
+        e = _cmp(out[k].split(), r["J2"], "Jacobian after an in-place parameter change"); k += 1
+        if e: return e
+        for pn in r["p2i"]:
+            z, p = out[k].split(" | "); k += 1
+            e = _cmp(z.split(), r["Z2"][pn], "sensitivity to %s after an in-place parameter change" % pn)
+            if e: return e
     return None
 
 def _rates(spec):
@@ -121,6 +141,22 @@ def oracle(case, r):
         bound = 3 * (c * h ** q * dq + h ** (q + 1) * dq2) + 1e-9 + 1e-9 * abs(d1)
         if not abs(got - d1) <= bound:
             return "%s %s: reported %r, analytic %r, bound %.3g" % (what, sch, got, d1, bound)
+    if "newp" in r:
+        if not r["kept2"]: return "parameters: values set in place before a query were changed by the query"
+        subs2 = dict(subs); subs2.update({syms[k]: v for k, v in r["newp"].items() if k in syms})
+        sch = SCHEMES[0]; subs_old = subs; subs = subs2
+        for i in range(n):
+            for j in range(n):
+                v = syms.get(names[j])
+                if v is not None:
+                    e = check(sp.sympify(f[i]), v, r["J2"][i * n + j], "Jacobian[%s][%s] after an in-place parameter change" % (names[i], names[j]), sch)
+                    if e: return e
+        for pn, Z in r["Z2"].items():
+            if pn in syms:
+                for i in range(n):
+                    e = check(sp.sympify(f[i]), syms[pn], Z[i], "dF[%s]/d%s after an in-place parameter change" % (names[i], pn), sch)
+                    if e: return e
+        subs = subs_old
     for sch in SCHEMES:
         J = r["J"][sch]
         for i in range(n):
